@@ -124,6 +124,11 @@ impl<'a, 'tcx> Cx<'a, 'tcx> {
                         extra.push_str(&format!(",\"v\":{}", esc(&v)));
                     }
                 }
+                // contents of a constant table of strings (`const NAMES: &[&str] = &[..]`)
+                if let Some(items) = self.str_table(c) {
+                    let js: Vec<String> = items.iter().map(|x| esc(x)).collect();
+                    extra.push_str(&format!(",\"strs\":[{}]", js.join(",")));
+                }
                 format!(
                     "{{\"c\":{},\"ty\":{}{}}}",
                     esc(&format!("{}", c.const_)),
@@ -134,6 +139,80 @@ impl<'a, 'tcx> Cx<'a, 'tcx> {
             #[allow(unreachable_patterns)]
             _ => "{\"c\":\"?\"}".to_string(),
         }
+    }
+    /// the strings of a constant of type `&[&str]` / `&[&str; N]`, read from its allocation
+    fn str_table(&self, c: &ConstOperand<'tcx>) -> Option<Vec<String>> {
+        let ty = c.const_.ty();
+        let inner = match ty.kind() {
+            ty::Ref(_, t, _) => *t,
+            _ => return None,
+        };
+        let (elem, fixed) = match inner.kind() {
+            ty::Slice(e) => (*e, None),
+            ty::Array(e, n) => (*e, n.try_to_target_usize(self.tcx)),
+            _ => return None,
+        };
+        match elem.kind() {
+            ty::Ref(_, t, _) if t.is_str() => {}
+            _ => return None,
+        }
+        let val = c.const_.eval(self.tcx, self.tenv, c.span).ok()?;
+        let (alloc_id, base, n) = match val {
+            ConstValue::Slice { alloc_id, meta } => (alloc_id, 0u64, meta),
+            ConstValue::Scalar(rustc_middle::mir::interpret::Scalar::Ptr(ptr, _)) => {
+                let (prov, off) = ptr.into_raw_parts();
+                (prov.alloc_id(), off.bytes(), fixed?)
+            }
+            // any other wide pointer is stored behind one more indirection: (ptr, len)
+            ConstValue::Indirect { alloc_id, offset } => {
+                let a = match self.tcx.global_alloc(alloc_id) {
+                    rustc_middle::mir::interpret::GlobalAlloc::Memory(a) => a.inner(),
+                    _ => return None,
+                };
+                let off = offset.bytes();
+                if (off + 16) as usize > a.len() {
+                    return None;
+                }
+                let prov = a.provenance().ptrs().get(&offset)?;
+                let raw = a.inspect_with_uninit_and_ptr_outside_interpreter(off as usize..(off + 16) as usize);
+                let addr = u64::from_le_bytes(raw[0..8].try_into().ok()?);
+                let len = match fixed {
+                    Some(k) => k,
+                    None => u64::from_le_bytes(raw[8..16].try_into().ok()?),
+                };
+                (prov.alloc_id(), addr, len)
+            }
+            _ => return None,
+        };
+        if n > 4096 {
+            return None;
+        }
+        let alloc = match self.tcx.global_alloc(alloc_id) {
+            rustc_middle::mir::interpret::GlobalAlloc::Memory(a) => a.inner(),
+            _ => return None,
+        };
+        let ps = self.tcx.data_layout.pointer_size().bytes();
+        if ps != 8 {
+            return None;
+        }
+        let mut out = Vec::new();
+        for i in 0..n {
+            let off = base + i * 2 * ps;
+            let prov = alloc.provenance().ptrs().get(&rustc_abi::Size::from_bytes(off))?;
+            let raw = alloc.inspect_with_uninit_and_ptr_outside_interpreter(off as usize..(off + 2 * ps) as usize);
+            let addr = u64::from_le_bytes(raw[0..8].try_into().ok()?);
+            let len = u64::from_le_bytes(raw[8..16].try_into().ok()?);
+            let tgt = match self.tcx.global_alloc(prov.alloc_id()) {
+                rustc_middle::mir::interpret::GlobalAlloc::Memory(a) => a.inner(),
+                _ => return None,
+            };
+            if (addr + len) as usize > tgt.len() {
+                return None;
+            }
+            let sb = tgt.inspect_with_uninit_and_ptr_outside_interpreter(addr as usize..(addr + len) as usize);
+            out.push(String::from_utf8_lossy(sb).into_owned());
+        }
+        Some(out)
     }
     fn closures_in(&self, ty: Ty<'tcx>, out: &mut Vec<String>) {
         for arg in ty.walk() {
